@@ -12,6 +12,13 @@ def gen(rng, tier):
     n = {"quick": 160, "thorough": 700, "search": 300}[tier]
     from fractions import Fraction as F
     out = []
+    # warm-up: every solver and representation first sees a ONE-state problem, so that anything a solver keeps
+    # from its first call (sizes, LP dimensions, caches) is wrong for every later case
+    for alg in ("ip", "wit", "ls"):
+        for repr_ in ("dense", "sparse", "generic"):
+            m = gen_pomdp(rng, 1, 2, 2, gammas=(F(1, 2),))
+            bs = gen_beliefs(rng, 1, 1)
+            out.append("solve %s %s 2 %s %d %s" % (alg, repr_, fmt_pomdp(m), len(bs), " ".join(Qs(b) for b in bs)))
     for k in range(n):
         S = rng.choice([2, 2, 3, 3]); A = rng.choice([1, 2, 2, 3]); O = rng.choice([1, 2, 2, 3, 4])
         m = gen_pomdp(rng, S, A, O, gammas=(F(1, 2), F(3, 4), F(3, 4), F(1)))
